@@ -12,6 +12,9 @@ pub fn emit(s: String) { use std::io::Write; let o = std::io::stdout(); let mut 
 pub fn log(s: String) { LOG.with(|l| l.borrow_mut().push(s)); }
 pub fn take_log() -> String { LOG.with(|l| l.borrow_mut().drain(..).collect::<Vec<_>>().join(",")) }
 
+#[cfg(feature = "z")]
+pub mod krate { pub use ::zeroize; }
+
 pub struct Leaf(pub u8);
 impl PartialEq for Leaf { fn eq(&self, o: &Self) -> bool { self.0 == o.0 && self.0 != 99 } }
 impl Eq for Leaf {}
